@@ -12,6 +12,9 @@ Decides:
                     index where exactly one side parsed.
  I item state       ItemState tables: conflict-marked items stay present; only the listed functions inspect ItemState.
  C conflicts        Message::render(Unconsumed) consults check_conflicts before anything else.
+ E env-backed flag   a flag alternative that is satisfied by its environment variable still looks for (and consumes) its
+                    own occurrence on the line first: otherwise the typed flag is left for nobody and the choice is
+                    decided by the environment instead of by what the user typed (shared with C18).
  O order            construct!([a, b, c]) expands to a left-nested or_else chain in listed order (witness).
 Does not decide: ordering of values collected under many/some."""
 import re
@@ -25,7 +28,7 @@ import consumers, scopes, shapes
 LEVEL = 'other'
 EXPLANATION = __doc__
 ASSUMPTIONS = ['Ord::cmp on usize and Option::is_none behave as documented']
-FLOORS = {'F.fork': 4, 'T.adopt-one': 14, 'S.selection': 1, 'W.pick_winner': 3, 'I.itemstate': 10, 'C.conflicts': 1, 'O.order': 2}
+FLOORS = {'F.fork': 4, 'T.adopt-one': 14, 'S.selection': 1, 'W.pick_winner': 3, 'I.itemstate': 10, 'C.conflicts': 1, 'O.order': 2, 'E.env-flag': 2}
 
 def run(ctx):
     cfgs = ['none', 'all'] if ctx.tier == 'quick' else ['none', 'all', 'ac', 'doc']
@@ -38,6 +41,8 @@ def run(ctx):
         ctx.guard(ledger_only, ctx, cfg, fs, 'W.pick_winner')
         ctx.guard(consumers.itemstate, ctx, cfg, fs, 'I.itemstate')
         ctx.guard(conflicts, ctx, cfg, fs)
+        import c08, c18
+        ctx.guard(c08.keep_only, ctx, lambda: c18.flag(ctx, cfg, fs), lambda o: 'take_flag-unconditional' in o.key or 'env-only-when-absent' in o.key, 'E.env-flag')
     wfs = load_witness('shapes')
     n = 0
     before = len(ctx.obs)
